@@ -21,7 +21,8 @@
      per step:  ok  unheld  res     (unheld = open descriptors the program does not hold;
                                      res: poll 0 Pending 1 Ready(Ok) 2 Ready(Err))
      then, after the teardown (drop future, two driver turns, drop stream, drop runtime):  unheld
-   kind 4  oracle-only programs (timing dependent): the model answers [4] *)
+   kind 4  oracle-only programs (timing dependent): the model answers [0; 4]
+   Every result line starts with [0; kind]. *)
 From Compio.Model Require Import Base SharedFd.
 
 Definition b2N (b : bool) : N := if b then 1%N else 0%N.
@@ -179,18 +180,25 @@ Fixpoint run_pops (s : pst) (l : list N) : option (list N) :=
     end
   end.
 
+(* every result line starts with [0; kind] *)
+Definition tag (k : N) (out : list N) : list N :=
+  match out with
+  | [99999%N] => out
+  | _ => 0%N :: k :: out
+  end.
+
 Definition run_c06 (l : list N) : list N :=
   match l with
-  | 1%N :: r => run_fd false r
+  | 1%N :: r => tag 1 (run_fd false r)
   | 2%N :: drv :: obj :: r =>
-    if (N.leb drv 1 && N.leb obj 1)%bool then run_fd true r else BAD_CASE
+    if (N.leb drv 1 && N.leb obj 1)%bool then tag 2 (run_fd true r) else BAD_CASE
   | 3%N :: drv :: r =>
     if (N.leb drv 1 && Nat.leb (count_occ N.eq_dec r 3%N) 1)%bool then
       match run_pops (pinit (N.eqb drv 0) false false) r with
-      | Some out => out
+      | Some out => tag 3 out
       | None => BAD_CASE
       end
     else BAD_CASE
-  | 4%N :: _ => [4%N]
+  | 4%N :: _ => [0%N; 4%N]
   | _ => BAD_CASE
   end.
